@@ -202,6 +202,19 @@ def run(tier, seed):
             pass
           else:
             fails.append(dict(inputs=dict(inp, parameter='/'.join(pth), defect=what), observed=f'raised {type(e).__name__} instead of a scope error', violated='bad-params-raise'))
+    # a wrongly shaped parameter is refused also while 'params' is mutable (it is never silently kept or re-initialised)
+    cases += 1
+    d3 = nn.Dense(3)
+    vd = d3.init(key, x)
+    bad = {'params': {'kernel': jnp.zeros((3, 5)), 'bias': vd['params']['bias']}}
+    for mut in (['params'], True):
+      try:
+        d3.apply(bad, x, mutable=mut)
+        fails.append(dict(inputs=dict(program='Dense(3)', defect='kernel of shape (3, 5) supplied', mutable=repr(mut)), observed='apply accepted the wrongly shaped parameter', violated='bad-params-raise'))
+      except errors.ScopeParamShapeError:
+        pass
+      except Exception as e:  # noqa
+        fails.append(dict(inputs=dict(program='Dense(3)', defect='kernel of shape (3, 5) supplied', mutable=repr(mut)), observed=f'raised {type(e).__name__} instead of ScopeParamShapeError', violated='bad-params-raise'))
     # a submodule on its own subtree computes what it computes inside its parent
     cases += 1
     Stat, Wrapper, Branch = cls['Stat'], cls['Wrapper'], cls['Branch']
